@@ -26,13 +26,12 @@ def run(c):
               "(reader wrapped in the futures::Stream adapter); non-trivial = an operation blocked; distinct by normalised trace")
     chan_common.run_chan(c, "C19", "S", True, WHAT)
     c.cov["partial_obligations"] = [
-        "FIFO refinement for streams over all schedules (values reach the reader exactly once, in order: writer buffer from the cursor "
-        "+ host channel contents + reader buffer = the written sequence; acceptance of the ChanSpec monitor by every model trace): NOT a "
-        "theorem for stream channels (it is for the two future channel kinds, C20). Proved instead: operation level for all inputs "
-        "(advance loop = closed form, counts, ledgers, decode) and, for the GUEST-WRITER stream channel, safety of every legal step of the "
-        "transition system under NoUseAfterDropped (no panic, no host trap, host reads at the guest's cursor: stream_never_traps_partial, "
-        "host_reads_at_the_cursor). Enforced otherwise by: exact trace equality model vs real runtime + ChanSpec fifo-*/count-*/return-*/"
-        "value-*/lists-*/slab-* clauses + Host.End legality on the REAL traces of every script of the run",
+        "FIFO for the guest-WRITER stream channel is a theorem (stream_writer_fifo: every legal step hands the reader exactly the next "
+        "values the guest exposes and the buffer then exposes exactly the rest; stream_writer_receives_in_order_once), under the hypothesis "
+        "NoUseAfterDropped and with the host as the reader. NOT theorems: the same for the guest-READER direction (below); acceptance of the "
+        "whole ChanSpec monitor (count-*, return-*, value-*, lists-*, slab-* clauses) by every model trace of a stream channel (it is for "
+        "the future channels, C20) — enforced by exact trace equality model vs real runtime + the monitors + Host.End legality on the REAL "
+        "traces of every script of the run",
         "guest-READER stream channel (read / next / collect / futures::Stream adapter) as a transition system: invariant stated "
         "(Proofs/StreamRead.lean: shapes, closed/idle cases proved), the step-safety induction is not finished; operation level proved "
         "(counts_are_hosts_read, dropped_sets_done_partial); validated as above",
